@@ -39,7 +39,8 @@ inductive Field
   | ConcurrentInvoker_m_resource | DefaultInvoker_m_subscription
   | Subscription_m_id | Subscription_m_subject | Subscription_m_observer
   | SubjectRouter_m_rootNode | Node_m_name | Node_m_subject | Node_m_children
-  | Subject_m_observers | Subject_m_activeSubscriptions | Subject_m_subscriptionCounter
+  | Subject_m_observers | Subject_m_removedObservers | Subject_m_notifyDepth | NotifyDepth_value
+  | Subject_m_activeSubscriptions | Subject_m_subscriptionCounter
   | ObserverDetails_observer | ObserverDetails_subscriptionId
   | Observer_m_func | Observer_m_params | Params_mute | EternalObserver_m_isValid
   /-- a member the sources have and this file does not know -/
@@ -120,14 +121,21 @@ def discipline : Field → TRule Field Fn
   | DefaultInvoker_m_subscription => .guardedByRW ConcurrentInvoker_m_resource
   | Subscription_m_id | Subscription_m_subject | Subscription_m_observer
   | SubjectRouter_m_rootNode | Node_m_name | Node_m_subject | Node_m_children
-  | Subject_m_observers | Subject_m_activeSubscriptions | Subject_m_subscriptionCounter
+  | Subject_m_observers | Subject_m_removedObservers | Subject_m_notifyDepth
+  | Subject_m_activeSubscriptions | Subject_m_subscriptionCounter
   | ObserverDetails_observer | ObserverDetails_subscriptionId
   | Observer_m_func | Observer_m_params | Params_mute | EternalObserver_m_isValid => .ownedState
+  -- number of notify() calls in progress on a Subject: concurrent notifiers hold only the READ lock (repair of F4)
+  | NotifyDepth_value => .atomic
   | undeclared => .none
 
-/-- contract conditions the intended use excludes: `1` = "`!observer->isValid()`", i.e. an observer was invalidated
-(the statement's programs never invalidate observers; with invalidation `Subject::notify` removes the observer lazily —
-a WRITE of the Subject under the router's READ lock, a genuine race that is recorded as a finding, not repaired here). -/
-def excludedConds : List Nat := [1]
+/-- contract conditions the intended use excludes:
+`1` = "`!observer->isValid()`", i.e. an observer was invalidated (the statement's programs never invalidate observers;
+with invalidation `Subject::notify` removes the observer lazily — a WRITE of the Subject under the router's READ lock, a
+genuine race that is recorded as a finding, not repaired here);
+`2` = "`!m_removedObservers.empty()`" at the end of a notification round, i.e. an observer was removed while a round was
+in progress — this needs condition 1 or a callback that unsubscribes (callbacks of the statement's programs do not call
+back into the router; `unsubscribe` through a handle takes the WRITE lock, so no round is in progress then). -/
+def excludedConds : List Nat := [1, 2]
 
 end Tulz.Model
